@@ -75,11 +75,11 @@ def _install_shim() -> None:
     fast._vq_shim = True
     # self-test: differential against the original on seeded pairs
     rnd = random.Random(12345)
-    for i in range(150):
+    for i in range(120):
         num = rnd.randint(-10 ** rnd.randint(0, 12), 10 ** rnd.randint(0, 12))
-        if i % 2:
+        if i % 20:
             den = 2 ** rnd.randint(0, 12) * 5 ** rnd.randint(0, 8)
-        else:
+        else:       # a few non-terminating ones (the original needs ~40 ms for each)
             den = rnd.randint(1, 5000)
         a = orig(num, den, 0)
         b = fast(num, den, 0)
